@@ -573,6 +573,8 @@ class Rules:
         for e in seg.events[seg.start:]:
             if e.kind != "error" or e.d.get("owner") != seg.name:
                 continue
+            # every diagnostic site is an instance: the rule decides "is a checkpoint live here" for each
+            self.bump("R-SPEC-PURITY", "error_sites", self.sites.key(e))
             if e.d.get("ckpt") != "some":
                 continue
             ks = variant_set(I, st, e.d.get("err")) or {"?"}
@@ -1074,7 +1076,32 @@ class Rules:
                      ("%s: %s" % (k, why)) if ok else "%s: %s; pre-loaded modes in lexing order: %s" % (k, why, " ".join(seq)))
 
     # -- R-PANIC: every reachable panic must be classified ----------------
+    PANIC_CALLEES = ("core::panicking::", "std::rt::begin_panic", "std::rt::panic_fmt")
+    UNWRAPS = ("std::option::Option::unwrap", "std::option::Option::expect", "std::result::Result::unwrap",
+               "std::result::Result::expect")
+
+    def panic_calls_of(self, fname):
+        """Syntactic panic-capable call sites of a function body (assert expansions, panic!, unwrap/expect):
+        the population R-PANIC decides; counted so that a rule that lost them fails its floor."""
+        c = self.__dict__.setdefault("_pcalls", {})
+        if fname not in c:
+            n = 0
+            b = self.fx.bodies.get(fname)
+            if b:
+                for node, _ in F.walk(b["hir"]):
+                    if node.get("k") in ("Call", "MethodCall") and node.get("def"):
+                        d = F.norm(node["def"])
+                        if d.startswith(self.PANIC_CALLEES) or d in self.UNWRAPS:
+                            n += 1
+            c[fname] = n
+        return c[fname]
+
     def r_panic(self, I, seg):
+        if seg.level == "fn" and seg.name not in self.__dict__.setdefault("_pseen", set()):
+            self._pseen.add(seg.name)
+            self.bump("R-PANIC", "fns_analysed", short_fn(seg.name))
+            for i in range(self.panic_calls_of(seg.name)):
+                self.bump("R-PANIC", "panic_calls_in_analysed_fns", "%s#%d" % (short_fn(seg.name), i))
         if seg.out.kind != "panic":
             return
         # only the activation in which the panic call itself occurs reports it
